@@ -365,6 +365,7 @@ pub enum AliasSyntaxError {
     UnexpectedEol(AliasToken, char),
     UnbalancedIO(Vec<AliasItem>),
     PlusInDerom(AliasPosition),
+    ToneTooBig(AliasPosition),
 }
 
 impl From<AliasSyntaxError> for Error {
@@ -406,6 +407,7 @@ impl ASCAError for AliasSyntaxError {
             Self::UnexpectedEol(token, ch) => format!("Expected `{ch}`, but received End of Line @ {}", token.position),
             Self::UnbalancedIO(_) => "Input or Output has too few elements ".to_string(),
             Self::PlusInDerom(_) => "Deromaniser rules currently do not support addition".to_string(),
+            Self::ToneTooBig(_) => "Tone is too large".to_string(),
         }
     }
 
@@ -434,6 +436,7 @@ impl ASCAError for AliasSyntaxError {
                 *line,
             ),
             Self::PlusInDerom          (pos) |
+            Self::ToneTooBig           (pos) |
             Self::UnknownFeature    (_, pos) |
             Self::UnknownEnbyFeature(_, pos) => (
                 " ".repeat(pos.start) + &"^".repeat(pos.end-pos.start) + "\n", 
